@@ -33,6 +33,10 @@ package project
 //   {"t":"rw","prior":kind,"cfg":C,"valid":bool,"old":hex|null,"bytes":hex}   file at the path after the rewrite (family B)
 //   ORACLE records of these families also carry "old" (hex|null), "prior", "fresh" (hex) and "history" ([C..]).
 // C = {"name":hex,"version":hex,"ignore":[hex..],"reqs":[[namehex,pathhex,versionhex]..]} (reqs sorted by name)
+//
+// FREE-FORM FIELDS: see c19crossStrings.  Kinds free-all / free-name / free-version / free-ignore / free-key (one string of
+// a foreign domain in the positions the quantifier does not restrict), free-ignore-sequence (order, repetition, empty
+// patterns), free-near-keys / free-near-ignore (two strings that a normalisation would identify, side by side).
 
 import (
 	"bufio"
@@ -137,6 +141,83 @@ func c19load(path string) (c *Config, err error, panicked bool) {
 	}()
 	c, err = LoadConfigFile(path)
 	return
+}
+
+// FREE-FORM FIELDS.  The quantifier restricts two fields only: a requirement's version (canonical semver) and a
+// requirement's path (clean form).  The project's name, the project's version, the ignore patterns and the
+// requirement names are arbitrary text, and "loading it back yields the same configuration" says that text comes
+// back verbatim.  The character classes above exercise the string ENCODER in those positions; c19crossStrings is
+// the other half: text that MEANS something to a validator or normaliser of some other field (or to one a
+// maintainer might plausibly add), so that a loader or writer that canonicalises, cleans, trims, case-folds,
+// re-types, sorts or de-duplicates a free-form field changes some configuration of the family.  Domains:
+//   semver:*    the semantic-version grammar enumerated: (MAJOR | MAJOR.MINOR | MAJOR.MINOR.PATCH) x prerelease x
+//               build metadata, plus what is nearly a version (no "v", leading zeros, ranges, padding); classified
+//               canonical / valid-not-canonical / not-semver by x/mod/semver, never by the code under test
+//   path:*      requirement-path shapes, clean and unclean (classified by c19refClean), globs, other path syntaxes
+//   text:*      padding and inner white space; letter case incl. characters whose case mapping changes the length;
+//               canonically / compatibly equivalent Unicode spellings; text that reads as another TOML type;
+//               the format's own key words; references (environment, URL, scp-like)
+type c19cross struct{ dom, s string }
+
+func c19crossStrings() []c19cross {
+	var out []c19cross
+	seen := map[string]bool{}
+	add := func(dom string, ss ...string) {
+		for _, s := range ss {
+			if !seen[s] && utf8.ValidString(s) {
+				seen[s] = true
+				out = append(out, c19cross{dom, s})
+			}
+		}
+	}
+	ver := func(s string) {
+		switch {
+		case !semver.IsValid(s):
+			add("semver:not-semver", s)
+		case semver.Canonical(s) == s:
+			add("semver:canonical", s)
+		default:
+			add("semver:valid-not-canonical", s)
+		}
+	}
+	for _, core := range []string{"v0", "v1", "v2", "v10", "v0.0", "v1.4", "v10.20", "v0.0.0", "v1.2.3", "v3.1.0", "v10.20.30"} {
+		for _, pre := range []string{"", "-rc.1", "-0", "-alpha.1.beta", "-x-y-z.--"} {
+			for _, build := range []string{"", "+build", "+build.20240131", "+exp.sha.5114f85", "+001", "+-", "+vendor.2"} {
+				ver(core + pre + build)
+			}
+		}
+	}
+	for _, s := range []string{"1.2.3", "1.2", "1", "1.2.3+build", "V1.2.3", "v01.2.3", "v1.02.3", "v1.2.03", "v1.2.3-01", " v1.2.3", "v1.2.3 ", "v1.2.3\n", "\tv1.2.3",
+		"=v1.2.3", "^1.2.3", "~1.2", ">=1.0", "<v2", "1.2.x", "*", "latest", "v1.2.3.4", "1.0.0-SNAPSHOT", "2024.01.31", "r123", "v", "v.", "v1.", "v1.2.", "v1.2.3-", "v1.2.3+",
+		"v1.2.3-rc.1+", "v1.2.3+a+b", "v1.2.3-a..b", "v1.2.3+a..b", "vv1.2.3", "v1.2.3v", "v1_2_3", "v1,2,3", "v\u0661.\u0662.\u0663", "v1.2.3-é", "v1.2.3+é", "v0.0.0-20240101000000-abcdef123456",
+		"v0.0.0-20240101000000-abcdef123456+incompatible", "v2.0.0+incompatible", "v1.2.3+dirty", "HEAD", "main", "abcdef1", "0.1", "0.1.0-dev"} {
+		ver(s)
+	}
+	pth := func(s string) {
+		if c19refClean(s) == s {
+			add("path:clean", s)
+		} else {
+			add("path:unclean", s)
+		}
+	}
+	for _, s := range []string{"github.com/a/b", "a/b@v2", "a@v10", ".", "/", "/a", "../a", "..", "a@v2/b", "@v2", "a/", "a//b", "./a", "a/../b", "a/./b", "a/b/..", "//", "//a", "/..", "./", "../",
+		"a@v1", "a@v0", "a@", "a/b@v1", "a/b@v0", "a/b@", "a@v1/b", "a/.@v2", "a/b/..@v2", "@v1", "@", "./a@v2", "a//b@v3", "dir/", "./build/**", "build/**/", "**/testdata/", "**/", "a/b/../c/*.o",
+		"*.o", "!keep", "[a-z]*", "[]", "[!a]", "{a,b}", "a?b", "**", "a\\b", "C:\\x\\y", "\\\\host\\share", "/abs//path/", "~/.cache", "file.go", ".hidden", "a/.", "a/..", ".../x", "a/b/", "a/b//",
+		"github.com/A/B", "GitHub.com/a/b", "github.com/a/b.git", "github.com/a/b/", "example.com:8080/x", "a b/c d", " a/b", "a/b "} {
+		pth(s)
+	}
+	add("text:whitespace", " x", "x ", " x ", "\tx", "x\t", "x\n", "\nx", "x\r\n", "x\r", " ", "  ", "\t", "\n", "\r\n", "x  y", "x \t y", "x\ny", "\u00a0x", "x\u00a0", "x\u3000", "\u2003x", "\ufeffx", "x\u200b",
+		"\u0085x", "x\u2028", "\vx", "x\f")
+	add("text:case", "Dawn", "DAWN", "dAwN", "dawn", "\u01c5", "\u00df", "\u1e9e", "\u0130", "\u0131", "\u017f", "\u03a3\u03c3\u03c2", "\u00c9COLE", "\u00e9cole", "STRASSE", "stra\u00dfe", "\ufb03", "\u0149")
+	add("text:unicode-forms", "\u00e9", "e\u0301", "\u00c5", "\u212b", "A\u030a", "\u1e69", "s\u0323\u0307", "s\u0307\u0323", "\ufb01", "fi", "\u2460", "\uff46\uff55\uff4c\uff4c", "\ud55c", "\u1112\u1161\u11ab", "\u2126", "\u03a9",
+		"\u00b5", "\u03bc", "\u00bd", "1\u20442", "\u2026", "...", "\u2010", "\u2013", "\u2018x\u2019", "\u201cx\u201d", "a\u0300\u0301", "a\u0301\u0300")
+	add("text:typed-literal", "true", "false", "True", "TRUE", "0", "1", "-1", "+1", "-0", "007", "1.0", "1.50", "0.10", "1.", ".5", "1e3", "1E3", "6.02e23", "0x10", "0o7", "0b1", "1_000", "inf", "+inf", "-inf", "nan", "NaN",
+		"1979-05-27", "1979-05-27T07:32:00Z", "1979-05-27 07:32:00", "07:32:00", "1979-05-27T00:32:00.999999-07:00", "null", "nil", "None", "{}", "[]", "[ ]", "\"\"", "''", "\"x\"", "'x'", "'''x'''", "\"\"\"x\"\"\"",
+		"[\"a\"]", "{a = 1}", "x = 1", "# x", "x # y", "x, y")
+	add("text:keyword", "name", "version", "ignore", "requirements", "path", "[requirements]", "requirements.x", "a.b.c", "x.path", "x.version", "name = 'x'", "requirements]", "[[requirements]]", "path,inline")
+	add("text:reference", "$HOME", "${HOME}", "$(pwd)", "`pwd`", "%USERPROFILE%", "%s", "%!v(MISSING)", "~", "~user", "https://github.com/a/b.git", "http://example.com/x?y=z&w#frag", "git@github.com:a/b", "ssh://git@host/a/b",
+		"file:///x", "a%20b", "a+b", "a&b", "a;b", "a|b", "a<b>", "\\n", "\\t", "\\x00", "\\u00e9", "&amp;", "<x>")
+	return out
 }
 
 func TestVerifC19(t *testing.T) {
@@ -680,6 +761,19 @@ func TestVerifC19(t *testing.T) {
 	for _, p := range append(append([]string{}, goodP...), badP...) {
 		emitClean(p)
 	}
+	// the strings of the free-form family also go through the sub-models of the domain they come from (and from there,
+	// when inside the quantifier, into the requirements of the packed configurations)
+	cross := c19crossStrings()
+	crossCount := map[string]int{}
+	for _, x := range cross {
+		crossCount[x.dom]++
+		switch {
+		case strings.HasPrefix(x.dom, "semver:"):
+			emitSemver(x.s)
+		case strings.HasPrefix(x.dom, "path:"), x.dom == "text:whitespace":
+			emitClean(x.s)
+		}
+	}
 	pathAlpha := []string{"a", "/", ".", "@", "v", "2", "1"}
 	var enum func(prefix string, n int)
 	enum = func(prefix string, n int) {
@@ -805,6 +899,60 @@ func TestVerifC19(t *testing.T) {
 		}
 		do("many-reqs", c)
 	}
+	// ---- free-form fields: text of every domain in every position the quantifier leaves unrestricted ----
+	// (a) one string in all four free positions at once; (b) the string alone in one position (all four positions for
+	// version- and path-shaped text, one position in rotation for the rest): nothing else in the configuration that a
+	// change could be conditional on; the requirements around it are plain and inside the quantifier
+	for i, x := range cross {
+		s := x.s
+		do("free-all:"+x.dom, &Config{Name: s, Version: s, Ignore: []string{s}, Requirements: map[string]RequirementConfig{s: req("a/b@v2", "v1.2.3")}})
+		alone := []*Config{{Name: s}, {Version: s}, {Ignore: []string{s}}, {Requirements: map[string]RequirementConfig{s: req("github.com/a/b", "v1.2.3")}}}
+		for pos, c := range alone {
+			if strings.HasPrefix(x.dom, "text:") && pos != i%4 {
+				continue
+			}
+			do([]string{"free-name:", "free-version:", "free-ignore:", "free-key:"}[pos]+x.dom, c)
+		}
+	}
+	// (c) the ignore patterns are a SEQUENCE: order, repetitions and empty patterns are part of the configuration.
+	// Every sequence of up to three patterns over {a, b, ""}, orders of patterns that a sort would move (byte order
+	// against case-insensitive, numeric, length order), long lists
+	var seqs [][]string
+	var seqEnum func(prefix []string, n int)
+	seqEnum = func(prefix []string, n int) {
+		if len(prefix) > 0 {
+			seqs = append(seqs, append([]string{}, prefix...))
+		}
+		if n == 0 {
+			return
+		}
+		for _, a := range []string{"a", "b", ""} {
+			seqEnum(append(prefix, a), n-1)
+		}
+	}
+	seqEnum(nil, 3)
+	seqs = append(seqs, []string{"b", "B", "a"}, []string{"B", "a", "b"}, []string{"a", "B", "b"}, []string{"10", "9", "1"}, []string{"9", "10"}, []string{"bb", "a", "ccc"}, []string{"z/**", "*.o", "a/*"},
+		[]string{"é", "z", "e"}, []string{" a", "a", "a "}, []string{"a/", "a", "./a"}, []string{"*.o", "*.O"}, []string{"!a", "a"}, []string{"a", "!a"})
+	long := []string{}
+	for i := 0; i < 120; i++ {
+		long = append(long, fmt.Sprintf("p%d/**", (i*37)%120))
+	}
+	seqs = append(seqs, long, append(append([]string{}, long[:40]...), long[:40]...))
+	for _, q := range seqs {
+		do("free-ignore-sequence", &Config{Ignore: q})
+		do("free-ignore-sequence", &Config{Name: "n", Version: "v1", Ignore: q, Requirements: map[string]RequirementConfig{"dep": req("a", "v1.2.3")}})
+	}
+	// (d) two requirement names (and two ignore patterns, in both orders) that some normalisation would identify:
+	// both must survive, each with its own path and version
+	near := [][2]string{{"a", "A"}, {"\u00e9", "e\u0301"}, {"\u00c5", "\u212b"}, {"a", " a"}, {"a", "a "}, {"a", "a\n"}, {"a", "\ta"}, {"a b", "a  b"}, {"a/b", "a//b"}, {"a", "./a"}, {"a", "a/"}, {"a", "a/."},
+		{"v1", "v1.0.0"}, {"v1.0", "v1.0.0"}, {"v1.0.0", "v1.0.0+build"}, {"v1.0.0+a", "v1.0.0+b"}, {"v1.2.3", "1.2.3"}, {"v1.2.3", "V1.2.3"}, {"x", "x@v2"}, {"x", "x@v1"}, {"x@v0", "x@v1"}, {"x@v2", "x@v3"},
+		{"a.b", "\"a.b\""}, {"a", "'a'"}, {"a", "\"a\""}, {"1", "01"}, {"1", "1.0"}, {"1", "+1"}, {"true", "True"}, {"\ufb01", "fi"}, {"\u00df", "ss"}, {"\u0130", "i"}, {"K", "\u212a"}, {"", " "}, {"", "\"\""},
+		{"github.com/a/b", "github.com/A/B"}, {"github.com/a/b", "github.com/a/b.git"}, {"a-b", "a_b"}, {"a\u200bb", "ab"}, {"\ufeffa", "a"}}
+	for _, pr := range near {
+		do("free-near-keys", &Config{Requirements: map[string]RequirementConfig{pr[0]: req("x/first", "v1.0.0"), pr[1]: req("y/second@v2", "v2.0.0-rc.1")}})
+		do("free-near-ignore", &Config{Ignore: []string{pr[0], pr[1]}})
+		do("free-near-ignore", &Config{Ignore: []string{pr[1], pr[0], pr[1]}})
+	}
 	// ---- every function-level string inside the quantifier, in a whole configuration (packed) ----
 	per, _ := strconv.Atoi(os.Getenv("VERIF_PACK"))
 	if per == 0 {
@@ -836,15 +984,18 @@ func TestVerifC19(t *testing.T) {
 		do("packed-versions", c)
 	}
 	emit(map[string]any{"t": "stats", "path_strings": len(pathStrs), "paths_in_configs": len(okPaths),
-		"version_strings": len(verStrs), "versions_in_configs": len(okVers)})
+		"version_strings": len(verStrs), "versions_in_configs": len(okVers), "free_form_strings": crossCount,
+		"ignore_sequences": len(seqs), "near_pairs": len(near)})
 	// ---- random configurations ----
 	pool := []string{"a", "b", "Z", "0", "-", "_", ".", " ", "=", "#", "'", "\"", "\\", "\n", "\t", "\r", "\x00", "\x1f", "\x7f", "é", "日", "😀", "/", "*", "[", "]", "{", "}", ",", "\u0085", "�", "u", "n"}
 	rs := func() string {
-		switch rng.Intn(4) {
+		switch rng.Intn(5) {
 		case 0:
 			return classes[rng.Intn(len(classes)-6)].s // not the invalid-UTF-8 ones
 		case 1:
 			return ""
+		case 2:
+			return cross[rng.Intn(len(cross))].s // version-, path-, typed-looking text in the free-form fields
 		}
 		n := 1 + rng.Intn(6)
 		s := ""
@@ -986,6 +1137,8 @@ func TestVerifC19(t *testing.T) {
 		{Name: "it's", Version: "say \"hi\"", Ignore: []string{"a'b\"c\\d\ne", ""}, Requirements: map[string]RequirementConfig{"a b": req("a/b@v2", "v2.0.0-rc.1"), "": req(".", "v0.0.0")}},
 		{Name: "日本語", Ignore: []string{"é/**"}, Requirements: map[string]RequirementConfig{"é": req("é/\U0001F600@v2", "v2.0.0"), "\U0001F600": req("a", "v1.0.0-x-y-z.--")}},
 		{Ignore: []string{"only", "ignore"}},
+		// free-form fields holding text of the restricted fields' domains
+		{Name: "v1.2.3+build.7", Version: "v2", Ignore: []string{"a//b/", " x ", "./a", "a"}, Requirements: map[string]RequirementConfig{"v1.0": req("a@v2", "v2.0.0"), "a/../b": req("b", "v1.0.0"), "1.0": req(".", "v0.0.0-0")}},
 	}
 	many := &Config{Name: "many", Requirements: map[string]RequirementConfig{}}
 	for i := 0; i < 12; i++ {
